@@ -235,6 +235,42 @@ def oracle(ctx, seeds=None):
                 sc = max(float(np.max(np.abs(a))) for a in ref.data) + 1e-300
                 if not (err <= 1e-9 * sc):
                     res.fail(key + ':snapshot-state', "snapshot at t=%r is not one forward step of %r from trajectory state %d (diff %r)" % (q.time, d, k, err), rp); break
+    # ---- (3) a restart on a solver object that has already served a run at another CFL number: the bookkeeping (number of full
+    # steps, snapshot times, iteration tags, states) is that of the same restart on a fresh object (one-step integrators; the
+    # multistep memory of gear legitimately belongs to the object)
+    for j, name in enumerate([n_ for n_ in ALL if n_ != 'gear'] * ctx.n(1, 4)):
+        cfg = small_problem(rng, name, model=['conv', 'burgers', 'conv', None][j % 4])
+        ok, b = impl.guarded(cfg1d.build, cfg)
+        if not ok:
+            res.fail('build:raised', b, dict(cfg=cfg)); continue
+        mod, msh, disc, f0 = b
+        imp = name in ('implicit', 'cranknicolson')
+        cfl1, cfl2 = (0.45, 0.15) if not imp else (1.5, 0.5)
+        if j % 2:
+            cfl1, cfl2 = cfl2, cfl1
+        mk = lambda: getattr(impl.integ, name)(msh, disc)
+        rp = dict(cfg=cfg, integrator=name, cfl_first=cfl1, cfl_restart=cfl2, kind='restart-after-other-cfl')
+        def run():
+            s = mk()
+            f1 = s.solve(f0.copy(), cfl1, stop={'maxit': 3})[-1]
+            dt2 = float(np.min(disc.calc_timestep(f1, cfl2)))
+            ts = [f1.time + 1.5 * dt2, f1.time + 4.25 * dt2]
+            ra = s.restart(f1.copy(), cfl2, ts, stop={'maxit': f1.it + 7})
+            fresh = mk()
+            rb = fresh.restart(f1.copy(), cfl2, list(ts), stop={'maxit': f1.it + 7})
+            return (s.nit(), float(s.Qn.time), ra), (fresh.nit(), float(fresh.Qn.time), rb)
+        ok, out = impl.guarded(run)
+        res.case(('restart-after-other-cfl', name, cfg['model']))
+        if not ok:
+            res.fail('%s:restart-raised' % name, out, rp); continue
+        (na, ta, ra), (nb, tb, rb) = out
+        ra, rb = list(ra), list(rb)
+        if any(q.isnan() for q in ra + rb):
+            res.count('skipped-unstable'); continue
+        if na != nb or abs(ta - tb) > 1e-12 * (abs(tb) + 1e-300) or [q.it for q in ra] != [q.it for q in rb] or len(ra) != len(rb) or \
+                any(abs(qa.time - qb.time) > 1e-12 * abs(qb.time) or not all(np.allclose(x, y, rtol=1e-9, atol=1e-12) for x, y in zip(qa.data, qb.data)) for qa, qb in zip(ra, rb)):
+            res.fail('%s:restart-after-other-cfl' % name, "restart(cfl=%r) on a solver that served solve(cfl=%r): %d full steps, end time %r, snapshots (it, t) %r; the same restart on a fresh solver: %d, %r, %r" %
+                     (cfl2, cfl1, na, ta, [(q.it, float(q.time)) for q in ra], nb, tb, [(q.it, float(q.time)) for q in rb]), rp)
     return res
 
 
